@@ -23,7 +23,8 @@ META["C16"] = {
 }
 
 A_FILES = {"a.f90": ["module kinds", "type tol_t", "real :: abs_tol", "end type tol_t", "end module kinds",
-                     "module geom", "type shape", "integer :: n", "end type shape", "end module geom",
+                     # declared with capitals, referenced in lower case from B (names are case-insensitive)
+                     "module geom", "type Shape", "integer :: n", "end type Shape", "end module geom",
                      "module shared", "integer :: s", "end module shared"]}
 PSET = dict(proc_internals=True, display=["public", "private", "protected"])
 
@@ -152,7 +153,7 @@ def _exported_rel(data):
     import json
     mods = json.loads(data)["modules"]
     g = [m for m in mods if m["name"] == "geom"][0]
-    t = [x for x in g.get("types", []) if x and x["name"] == "shape"][0]
+    t = [x for x in g.get("types", []) if x and x["name"].lower() == "shape"][0]
     strip = lambda u: u.split("/", 1)[-1]
     return strip(g["external_url"]), strip(t["external_url"])
 
